@@ -7,15 +7,15 @@ namespace Resolvo.C20
 open Resolvo Resolvo.CacheM
 
 /-- (a) matching / non-matching partition the package's candidates exactly as `filter_candidates`
-    defines, each keeping the provider's order. -/
+    defines (whatever order the provider's filter returns them in), and keep the provider's order when the filter does. -/
 theorem partition (U : Universe) (vs : Nat) :
     (∀ x, x ∈ U.pkgCands vs ↔ (x ∈ U.candsOf vs ∨ x ∈ U.nonMatching vs)) ∧
     (∀ x, ¬ (x ∈ U.candsOf vs ∧ x ∈ U.nonMatching vs)) ∧
-    (U.candsOf vs).Sublist (U.pkgCands vs) ∧ (U.nonMatching vs).Sublist (U.pkgCands vs) := by
+    (U.filterRev = false → (U.candsOf vs).Sublist (U.pkgCands vs) ∧ (U.nonMatching vs).Sublist (U.pkgCands vs)) := by
   unfold Universe.candsOf Universe.nonMatching
-  refine ⟨?_, ?_, List.filter_sublist, List.filter_sublist⟩
+  refine ⟨?_, ?_, ?_⟩
   · intro x
-    simp only [List.mem_filter, Bool.not_eq_true']
+    simp only [Universe.mem_reord, List.mem_filter, Bool.not_eq_true']
     constructor
     · intro h
       cases hm : U.matchesVs vs x
@@ -23,9 +23,20 @@ theorem partition (U : Universe) (vs : Nat) :
       · exact Or.inl ⟨h, rfl⟩
     · rintro (h | h) <;> exact h.1
   · intro x
-    simp only [List.mem_filter, Bool.not_eq_true']
+    simp only [Universe.mem_reord, List.mem_filter, Bool.not_eq_true']
     rintro ⟨⟨_, h1⟩, ⟨_, h2⟩⟩
     rw [h1] at h2; cases h2
+  · intro h
+    unfold Universe.reord
+    simp only [h, Bool.false_eq_true, if_false]
+    exact ⟨List.filter_sublist, List.filter_sublist⟩
+
+/-- the matching list is exactly what the provider's filter returns: the matching candidates in the provider's candidate
+    order, reversed if the filter reverses -/
+theorem matching_exact (U : Universe) (vs : Nat) :
+    U.candsOf vs = (if U.filterRev then ((U.pkgCands vs).filter (U.matchesVs vs)).reverse else (U.pkgCands vs).filter (U.matchesVs vs)) ∧
+    U.nonMatching vs = (if U.filterRev then ((U.pkgCands vs).filter (fun s => !U.matchesVs vs s)).reverse
+                        else (U.pkgCands vs).filter (fun s => !U.matchesVs vs s)) := ⟨rfl, rfl⟩
 
 /-- (b) sorted candidates: the matching ones, in `sort_candidates` order … -/
 theorem sorted_members (U : Universe) (vs : Nat) (x : Nat) : x ∈ sortedCands U vs ↔ x ∈ U.candsOf vs := by
